@@ -23,6 +23,21 @@ type HookPlan struct {
 	// DelayPoints: only these points are perturbed (nil = the default lock-free set)
 	DelayPoints []string `json:"delay_points,omitempty"`
 	DelayMaxUS  int      `json:"delay_max_us,omitempty"`
+	// WaitPoints: a background goroutine reaching one of these points waits there until the
+	// writer completes its next call (HookSignalWrite), at most WaitCapUS microseconds; works
+	// together with every mode (in crash mode the kill still happens at its point)
+	WaitPoints []string `json:"wait_points,omitempty"`
+	WaitCapUS  int      `json:"wait_cap_us,omitempty"`
+}
+
+var hookWriteSignal = make(chan struct{}, 1)
+
+// HookSignalWrite tells the dispatcher that the writer completed a call.
+func HookSignalWrite() {
+	select {
+	case hookWriteSignal <- struct{}{}:
+	default:
+	}
 }
 
 // Points at which the calling goroutine holds no scorch lock: only these are delayed.
@@ -63,6 +78,23 @@ func (h *hookDispatcher) call(point string) {
 	h.mu.Unlock()
 	if obs != nil {
 		obs(point)
+	}
+	for _, wp := range plan.WaitPoints {
+		if wp == point {
+			select { // forget a signal from before the window opened
+			case <-hookWriteSignal:
+			default:
+			}
+			capUS := plan.WaitCapUS
+			if capUS <= 0 {
+				capUS = 5000
+			}
+			select {
+			case <-hookWriteSignal:
+			case <-time.After(time.Duration(capUS) * time.Microsecond):
+			}
+			break
+		}
 	}
 	switch plan.Mode {
 	case "crash":
